@@ -1,0 +1,633 @@
+//! Verification hooks. Compiled only with `--cfg divan_verif`.
+//!
+//! Thin wrappers over crate-private items so that an external harness can
+//! drive them, plus a virtual timestamp counter and an event log consulted by
+//! the cfg-guarded lines in `time/` and `benchmark/`. No logic of their own.
+
+#![allow(missing_docs, clippy::all)]
+
+use std::{
+    cell::Cell,
+    cmp::Ordering,
+    num::{NonZeroU64, NonZeroUsize},
+    sync::{
+        atomic::{AtomicBool, AtomicU64, Ordering as AtomicOrdering},
+        Mutex,
+    },
+    time::Duration,
+};
+
+use crate::{
+    alloc::{AllocOp, ThreadAllocInfo},
+    benchmark::{BenchContext, BenchOptions},
+    config::{
+        filter::{Filter, FilterSet},
+        Action, SortingAttr,
+    },
+    counter::{AnyCounter, BytesFormat, KnownCounterKind},
+    divan::SharedContext,
+    entry::{AnyBenchEntry, BenchEntry, EntryTree, GroupEntry},
+    stats::Stats,
+    time::{FineDuration, TimedOverhead, Timer, TscTimestamp},
+    util::thread::ThreadPool,
+    Bencher,
+};
+
+// ---------------------------------------------------------------------------
+// Event log
+// ---------------------------------------------------------------------------
+
+/// Event kinds written by the cfg-guarded lines inside the crate.
+pub mod ev {
+    pub const CLOCK_START: u8 = 1;
+    pub const CLOCK_END: u8 = 2;
+    pub const BARRIER_ARRIVE: u8 = 3;
+    pub const BARRIER_LEAVE: u8 = 4;
+    pub const TALLY_CLEAR: u8 = 5;
+    pub const TALLY_SNAPSHOT: u8 = 6;
+    /// Kinds `>= USER` are free for the harness.
+    pub const USER: u8 = 16;
+}
+
+#[derive(Clone, Copy, Debug, PartialEq, Eq)]
+pub struct Event {
+    /// Global sequence number (total order of logging).
+    pub seq: u64,
+    /// 0 for the caller, `k` for pool thread `divan-k`.
+    pub thread: u32,
+    pub kind: u8,
+    pub a: u64,
+    pub b: u64,
+}
+
+static LOG_ON: AtomicBool = AtomicBool::new(false);
+static LOG: Mutex<Vec<Event>> = Mutex::new(Vec::new());
+
+/// Index of the current thread: 0 unless it is a pool worker `divan-k`.
+pub fn thread_index() -> u32 {
+    thread_local! {
+        static IDX: Cell<Option<u32>> = const { Cell::new(None) };
+    }
+    IDX.try_with(|idx| {
+        if let Some(i) = idx.get() {
+            return i;
+        }
+        let i = std::thread::current()
+            .name()
+            .and_then(|n| n.strip_prefix("divan-"))
+            .and_then(|n| n.parse().ok())
+            .unwrap_or(0);
+        idx.set(Some(i));
+        i
+    })
+    .unwrap_or(0)
+}
+
+pub fn log_enable(on: bool) {
+    LOG_ON.store(on, AtomicOrdering::SeqCst);
+}
+
+pub fn log_reserve(n: usize) {
+    LOG.lock().unwrap_or_else(|e| e.into_inner()).reserve(n);
+}
+
+#[inline]
+pub fn log_event(kind: u8, a: u64, b: u64) {
+    if !LOG_ON.load(AtomicOrdering::Relaxed) {
+        return;
+    }
+    let thread = thread_index();
+    let mut log = LOG.lock().unwrap_or_else(|e| e.into_inner());
+    let seq = log.len() as u64;
+    log.push(Event { seq, thread, kind, a, b });
+}
+
+pub fn log_take() -> Vec<Event> {
+    std::mem::take(&mut *LOG.lock().unwrap_or_else(|e| e.into_inner()))
+}
+
+// ---------------------------------------------------------------------------
+// Virtual timestamp counter (H2)
+// ---------------------------------------------------------------------------
+
+static VCLOCK_ON: AtomicBool = AtomicBool::new(false);
+static VCLOCK_FREQ: AtomicU64 = AtomicU64::new(0);
+static VCLOCK_AUTOSTEP: AtomicU64 = AtomicU64::new(0);
+
+thread_local! {
+    static VCLOCK_NOW: Cell<u64> = const { Cell::new(0) };
+}
+
+/// Switches every thread to its own virtual counter (starting at 0) with the
+/// given frequency. Each read returns the current value and then advances it
+/// by `auto_step`.
+pub fn vclock_enable(frequency: u64, auto_step: u64) {
+    VCLOCK_FREQ.store(frequency, AtomicOrdering::SeqCst);
+    VCLOCK_AUTOSTEP.store(auto_step, AtomicOrdering::SeqCst);
+    VCLOCK_ON.store(true, AtomicOrdering::SeqCst);
+}
+
+pub fn vclock_disable() {
+    VCLOCK_ON.store(false, AtomicOrdering::SeqCst);
+}
+
+/// Advances the current thread's virtual counter (wrapping).
+pub fn vclock_advance(ticks: u64) {
+    _ = VCLOCK_NOW.try_with(|now| now.set(now.get().wrapping_add(ticks)));
+}
+
+pub fn vclock_set(value: u64) {
+    _ = VCLOCK_NOW.try_with(|now| now.set(value));
+}
+
+pub fn vclock_now() -> u64 {
+    VCLOCK_NOW.try_with(|now| now.get()).unwrap_or(0)
+}
+
+/// Called by `TscTimestamp::start`/`end`.
+#[inline]
+pub(crate) fn vclock_read(is_end: bool) -> Option<u64> {
+    if !VCLOCK_ON.load(AtomicOrdering::Relaxed) {
+        return None;
+    }
+    let value = vclock_now();
+    log_event(if is_end { ev::CLOCK_END } else { ev::CLOCK_START }, value, 0);
+    vclock_advance(VCLOCK_AUTOSTEP.load(AtomicOrdering::Relaxed));
+    Some(value)
+}
+
+/// Called by `TscTimestamp::frequency`.
+pub(crate) fn vclock_frequency() -> Option<NonZeroU64> {
+    if !VCLOCK_ON.load(AtomicOrdering::Relaxed) {
+        return None;
+    }
+    NonZeroU64::new(VCLOCK_FREQ.load(AtomicOrdering::Relaxed))
+}
+
+// ---------------------------------------------------------------------------
+// Timer overrides (H3)
+// ---------------------------------------------------------------------------
+
+static PRECISION_OVERRIDE: Mutex<Option<u128>> = Mutex::new(None);
+static OVERHEAD_OVERRIDE: Mutex<Option<&'static TimedOverhead>> =
+    Mutex::new(None);
+
+pub fn set_precision_override(picos: Option<u128>) {
+    *PRECISION_OVERRIDE.lock().unwrap() = picos;
+}
+
+/// `[sample_loop, tally_alloc, tally_dealloc, tally_realloc]` in picoseconds.
+pub fn set_overhead_override(picos: Option<[u128; 4]>) {
+    *OVERHEAD_OVERRIDE.lock().unwrap() = picos.map(|p| {
+        &*Box::leak(Box::new(TimedOverhead {
+            sample_loop: FineDuration { picos: p[0] },
+            tally_alloc: FineDuration { picos: p[1] },
+            tally_dealloc: FineDuration { picos: p[2] },
+            tally_realloc: FineDuration { picos: p[3] },
+        }))
+    });
+}
+
+pub(crate) fn precision_override() -> Option<FineDuration> {
+    PRECISION_OVERRIDE.lock().unwrap().map(|picos| FineDuration { picos })
+}
+
+pub(crate) fn overhead_override() -> Option<&'static TimedOverhead> {
+    *OVERHEAD_OVERRIDE.lock().unwrap()
+}
+
+// ---------------------------------------------------------------------------
+// Pure wrappers (H1)
+// ---------------------------------------------------------------------------
+
+pub fn tsc_duration_since(later: u64, earlier: u64, frequency: u64) -> u128 {
+    TscTimestamp { value: later }
+        .duration_since(
+            TscTimestamp { value: earlier },
+            NonZeroU64::new(frequency).expect("frequency"),
+        )
+        .picos
+}
+
+pub fn fine_duration_from(duration: Duration) -> u128 {
+    FineDuration::from(duration).picos
+}
+
+/// `Timer::measure_precision` of a TSC timer (uncached).
+pub fn measure_precision_tsc(frequency: u64) -> u128 {
+    Timer::Tsc { frequency: NonZeroU64::new(frequency).expect("frequency") }
+        .measure_precision_verif()
+        .picos
+}
+
+pub fn fmt_duration(picos: u128) -> String {
+    FineDuration { picos }.to_string()
+}
+
+pub fn fmt_duration_with(
+    picos: u128,
+    precision: Option<usize>,
+    width: Option<usize>,
+) -> String {
+    let d = FineDuration { picos };
+    match (precision, width) {
+        (None, None) => format!("{d}"),
+        (Some(p), None) => format!("{d:.p$}"),
+        (None, Some(w)) => format!("{d:<w$}"),
+        (Some(p), Some(w)) => format!("{d:<w$.p$}"),
+    }
+}
+
+pub fn format_f64(val: f64, sig_figs: usize) -> String {
+    crate::util::fmt::format_f64(val, sig_figs)
+}
+
+pub fn format_bytes(val: f64, sig_figs: usize, binary: bool) -> String {
+    crate::util::fmt::format_bytes(val, sig_figs, bytes_format(binary))
+}
+
+fn bytes_format(binary: bool) -> BytesFormat {
+    if binary {
+        BytesFormat::Binary
+    } else {
+        BytesFormat::Decimal
+    }
+}
+
+fn counter_kind(kind: u8) -> KnownCounterKind {
+    KnownCounterKind::ALL[kind as usize]
+}
+
+/// `kind`: 0 bytes, 1 chars, 2 cycles, 3 items.
+pub fn display_throughput(
+    kind: u8,
+    count: u64,
+    picos: u128,
+    binary: bool,
+) -> String {
+    AnyCounter::known(counter_kind(kind), count as _)
+        .display_throughput(FineDuration { picos }, bytes_format(binary))
+        .to_string()
+}
+
+fn ord(o: Ordering) -> i8 {
+    o as i8
+}
+
+pub fn natural_cmp(a: &str, b: &str) -> i8 {
+    ord(crate::util::sort::natural_cmp(a, b))
+}
+
+fn sorting_attr(attr: u8) -> SortingAttr {
+    match attr {
+        0 => SortingAttr::Kind,
+        1 => SortingAttr::Name,
+        _ => SortingAttr::Location,
+    }
+}
+
+/// Compares `names[i]` with `names[j]` (both borrowed from the same slice, as
+/// in the tree).
+pub fn cmp_bench_arg_names(attr: u8, names: &[&str], i: usize, j: usize) -> i8 {
+    ord(sorting_attr(attr).cmp_bench_arg_names(&names[i], &names[j]))
+}
+
+/// Sorts argument names exactly as `EntryTree::sort_by_attr` sorts a leaf's
+/// arguments; returns the permutation as indices into `names`.
+pub fn sort_arg_names(attr: u8, reverse: bool, names: &[&str]) -> Vec<usize> {
+    let attr = sorting_attr(attr);
+    let mut args: Vec<&&str> = names.iter().collect();
+    args.sort_by(|&a, &b| {
+        let o = attr.cmp_bench_arg_names(a, b);
+        if reverse {
+            o.reverse()
+        } else {
+            o
+        }
+    });
+    args.into_iter()
+        .map(|a| crate::util::slice_ptr_index(names, a))
+        .collect()
+}
+
+/// A filter set built by the given sequence of insertions.
+pub struct VerifFilterSet(FilterSet);
+
+impl VerifFilterSet {
+    /// `(inclusive, exact, pattern)` in insertion order.
+    pub fn new(filters: &[(bool, bool, &str)]) -> Self {
+        let mut set = FilterSet::default();
+        for &(inclusive, exact, pattern) in filters {
+            let filter = if exact {
+                Filter::Exact(pattern.to_owned())
+            } else {
+                Filter::Regex(regex::Regex::new(pattern).expect("regex"))
+            };
+            if inclusive {
+                set.include(filter);
+            } else {
+                set.exclude(filter);
+            }
+        }
+        Self(set)
+    }
+
+    pub fn is_match(&self, path: &str) -> bool {
+        self.0.is_match(path)
+    }
+}
+
+pub fn regex_is_match(pattern: &str, s: &str) -> bool {
+    regex::Regex::new(pattern).expect("regex").is_match(s)
+}
+
+pub fn options_overwrite<'a>(
+    this: &'a BenchOptions<'a>,
+    other: &'a BenchOptions<'a>,
+) -> BenchOptions<'a> {
+    this.overwrite(other)
+}
+
+pub fn options_counter(options: &BenchOptions, kind: u8) -> Option<u64> {
+    options.counters.get(counter_kind(kind)).map(|c| c as u64)
+}
+
+// ---------------------------------------------------------------------------
+// Entry trees
+// ---------------------------------------------------------------------------
+
+/// Builds the tree exactly as `Divan::run_action` does from the given entries
+/// (generic benchmarks of the groups included), applies `retain` with
+/// `filter` and, if `sort` is given, `sort_by_attr(attr, reverse)`; dumps it
+/// as one line per node: `depth kind display_name [args...]` with kind `P`
+/// (parent), `G` (parent with group), `L` (leaf).
+pub fn tree_dump(
+    benches: &[&'static BenchEntry],
+    groups: &[&'static GroupEntry],
+    filter: Option<&mut dyn FnMut(&str) -> bool>,
+    sort: Option<(u8, bool)>,
+) -> Vec<String> {
+    let generic = groups
+        .iter()
+        .flat_map(|g| g.generic_benches_iter().map(AnyBenchEntry::GenericBench));
+    let entries =
+        benches.iter().map(|b| AnyBenchEntry::Bench(b)).chain(generic);
+    let mut tree = EntryTree::from_benches(entries);
+    for group in groups {
+        EntryTree::insert_group(&mut tree, group);
+    }
+    if let Some(filter) = filter {
+        EntryTree::retain(&mut tree, |p| filter(p));
+    }
+    if let Some((attr, reverse)) = sort {
+        EntryTree::sort_by_attr(&mut tree, sorting_attr(attr), reverse);
+    }
+    let mut out = Vec::new();
+    fn dump(tree: &[EntryTree], depth: usize, out: &mut Vec<String>) {
+        for node in tree {
+            match node {
+                EntryTree::Parent { group, children, .. } => {
+                    out.push(format!(
+                        "{depth}\t{}\t{}",
+                        if group.is_some() { "G" } else { "P" },
+                        node.display_name()
+                    ));
+                    dump(children, depth + 1, out);
+                }
+                EntryTree::Leaf { args, .. } => {
+                    let mut line =
+                        format!("{depth}\tL\t{}", node.display_name());
+                    if let Some(args) = args {
+                        line.push_str("\tA");
+                        for arg in args {
+                            line.push('\t');
+                            line.push_str(arg);
+                        }
+                    }
+                    out.push(line);
+                }
+            }
+        }
+    }
+    dump(&tree, 0, &mut out);
+    out
+}
+
+// ---------------------------------------------------------------------------
+// Allocation tallies
+// ---------------------------------------------------------------------------
+
+/// Plain copy of `ThreadAllocInfo`. Tallies are indexed
+/// `[grow, shrink, alloc, dealloc]`, each `(count, size)`.
+#[derive(Clone, Debug, Default, PartialEq, Eq)]
+pub struct PlainAllocInfo {
+    pub tallies: [(u64, u64); 4],
+    pub current_count: i64,
+    pub max_count: i64,
+    pub current_size: i64,
+    pub max_size: i64,
+}
+
+impl PlainAllocInfo {
+    fn from_info(info: &ThreadAllocInfo) -> Self {
+        Self {
+            tallies: AllocOp::ALL.map(|op| {
+                let t = info.tallies.get(op);
+                (t.count as u64, t.size as u64)
+            }),
+            current_count: info.current_count as i64,
+            max_count: info.max_count as i64,
+            current_size: info.current_size as i64,
+            max_size: info.max_size as i64,
+        }
+    }
+
+    fn to_info(&self) -> ThreadAllocInfo {
+        let mut info = ThreadAllocInfo::new();
+        for (i, op) in AllocOp::ALL.into_iter().enumerate() {
+            let t = info.tallies.get_mut(op);
+            t.count = self.tallies[i].0 as _;
+            t.size = self.tallies[i].1 as _;
+        }
+        info.current_count = self.current_count as _;
+        info.max_count = self.max_count as _;
+        info.current_size = self.current_size as _;
+        info.max_size = self.max_size as _;
+        info
+    }
+}
+
+/// Copies the current thread's tally; `None` if the thread-local is gone.
+pub fn thread_alloc_info() -> Option<PlainAllocInfo> {
+    ThreadAllocInfo::try_current()
+        .map(|info| PlainAllocInfo::from_info(unsafe { info.as_ref() }))
+}
+
+/// Clears the current thread's tally (as the sample loop does).
+pub fn thread_alloc_clear() {
+    if let Some(mut info) = ThreadAllocInfo::current() {
+        unsafe { info.as_mut() }.clear();
+    }
+}
+
+/// Applies the tally arithmetic directly to a fresh `ThreadAllocInfo`:
+/// ops are `(kind, a, b)` with kind 0 alloc(a), 1 dealloc(a), 2 realloc(old=a,new=b).
+pub fn tally_run(ops: &[(u8, usize, usize)]) -> PlainAllocInfo {
+    let mut info = ThreadAllocInfo::new();
+    for &(kind, a, b) in ops {
+        match kind {
+            0 => info.tally_alloc(a),
+            1 => info.tally_dealloc(a),
+            _ => info.tally_realloc(a, b),
+        }
+    }
+    PlainAllocInfo::from_info(&info)
+}
+
+// ---------------------------------------------------------------------------
+// Bencher / statistics
+// ---------------------------------------------------------------------------
+
+#[derive(Clone, Debug, Default)]
+pub struct PlainStatsSet<T> {
+    pub fastest: T,
+    pub slowest: T,
+    pub median: T,
+    pub mean: T,
+}
+
+#[derive(Clone, Debug, Default)]
+pub struct PlainStats {
+    pub sample_count: u32,
+    pub iter_count: u64,
+    pub time: PlainStatsSet<u128>,
+    pub max_alloc_count: PlainStatsSet<f64>,
+    pub max_alloc_size: PlainStatsSet<f64>,
+    /// `[grow, shrink, alloc, dealloc]`, each `(count, size)`.
+    pub alloc_tallies: [(PlainStatsSet<f64>, PlainStatsSet<f64>); 4],
+    /// `[bytes, chars, cycles, items]`.
+    pub counts: [Option<PlainStatsSet<u64>>; 4],
+}
+
+impl PlainStats {
+    fn from_stats(stats: &Stats) -> Self {
+        fn set<T, U>(
+            s: &crate::stats::StatsSet<T>,
+            f: impl Fn(&T) -> U,
+        ) -> PlainStatsSet<U> {
+            PlainStatsSet {
+                fastest: f(&s.fastest),
+                slowest: f(&s.slowest),
+                median: f(&s.median),
+                mean: f(&s.mean),
+            }
+        }
+        Self {
+            sample_count: stats.sample_count,
+            iter_count: stats.iter_count,
+            time: set(&stats.time, |d| d.picos),
+            max_alloc_count: set(&stats.max_alloc.count, |&v| v),
+            max_alloc_size: set(&stats.max_alloc.size, |&v| v),
+            alloc_tallies: AllocOp::ALL.map(|op| {
+                let t = stats.alloc_tallies.get(op);
+                (set(&t.count, |&v| v), set(&t.size, |&v| v))
+            }),
+            counts: KnownCounterKind::ALL.map(|kind| {
+                stats.get_counts(kind).map(|s| set(s, |&c| c as u64))
+            }),
+        }
+    }
+}
+
+/// Everything a `Bencher` run left behind.
+#[derive(Clone, Debug, Default)]
+pub struct RunDump {
+    pub did_run: bool,
+    pub sample_size: u32,
+    /// Recorded sample durations in picoseconds, in recording order.
+    pub durations: Vec<u128>,
+    /// Allocation info keyed by sample index, sorted by index.
+    pub alloc_infos: Vec<(u32, PlainAllocInfo)>,
+    /// Counter values per kind `[bytes, chars, cycles, items]`.
+    pub counts: [Vec<u64>; 4],
+    pub uses_input_counts: [bool; 4],
+    /// `None` if `compute_stats` was not requested.
+    pub stats: Option<PlainStats>,
+}
+
+pub struct RunConfig<'a> {
+    pub options: &'a BenchOptions<'a>,
+    pub threads: usize,
+    /// `true`: `Action::Test`, `false`: `Action::Bench`.
+    pub is_test: bool,
+    /// TSC frequency (use with `vclock_enable`), or `None` for the OS timer.
+    pub tsc_frequency: Option<u64>,
+    pub compute_stats: bool,
+}
+
+/// Builds a `Bencher` exactly as `Divan::run_bench_entry` does and hands it to
+/// `with_bencher`.
+pub fn run_bencher(
+    config: &RunConfig,
+    with_bencher: &dyn Fn(Bencher),
+) -> RunDump {
+    let timer = match config.tsc_frequency {
+        Some(f) => {
+            Timer::Tsc { frequency: NonZeroU64::new(f).expect("frequency") }
+        }
+        None => Timer::Os,
+    };
+    let shared_context = SharedContext {
+        action: if config.is_test { Action::Test } else { Action::Bench },
+        timer,
+        thread_pool: ThreadPool::new(),
+    };
+    let mut bench_context = BenchContext::new(
+        &shared_context,
+        config.options,
+        NonZeroUsize::new(config.threads).expect("threads"),
+    );
+    with_bencher(Bencher::new(&mut bench_context));
+    let mut dump = bench_context.verif_dump();
+    if config.compute_stats && bench_context.did_run {
+        dump.stats =
+            Some(PlainStats::from_stats(&bench_context.compute_stats()));
+    }
+    dump
+}
+
+/// Calls `compute_stats` on a context holding exactly the given samples.
+pub fn stats_from_samples(
+    sample_size: u32,
+    durations: &[u128],
+    alloc_infos: &[(u32, PlainAllocInfo)],
+    counts: &[Vec<u64>; 4],
+    uses_input_counts: [bool; 4],
+) -> PlainStats {
+    let options = BenchOptions::default();
+    let shared_context = SharedContext {
+        action: Action::Bench,
+        timer: Timer::Os,
+        thread_pool: ThreadPool::new(),
+    };
+    let mut bench_context =
+        BenchContext::new(&shared_context, &options, NonZeroUsize::MIN);
+    let infos: Vec<(u32, ThreadAllocInfo)> =
+        alloc_infos.iter().map(|(i, info)| (*i, info.to_info())).collect();
+    bench_context.verif_load(
+        sample_size,
+        durations,
+        &infos,
+        counts,
+        uses_input_counts,
+    );
+    PlainStats::from_stats(&bench_context.compute_stats())
+}
+
+pub(crate) fn plain_alloc_info(info: &ThreadAllocInfo) -> PlainAllocInfo {
+    PlainAllocInfo::from_info(info)
+}
+
+pub(crate) fn counter_kind_of(kind: usize) -> KnownCounterKind {
+    KnownCounterKind::ALL[kind]
+}
